@@ -75,8 +75,11 @@ type Env struct {
 	// normalised trace of outcomes (C12 differential)
 	trace []string
 	// called with the caller's object after an accepted InsertOrUpdate (C14)
-	onStored func(arg *Doc)
-	prepArg  func(arg *Doc) // last touch on the caller's object before it is handed to the database
+	onStored      func(arg *Doc)
+	afterOpen     func()         // first thing done with a freshly opened handle (reopen ops)
+	holdingSearch bool           // a snapshot op is executing its writes
+	argOverride   *Doc           // one-shot: the object handed to InsertOrUpdate instead of a fresh copy
+	prepArg       func(arg *Doc) // last touch on the caller's object before it is handed to the database
 	// evidence classification state
 	released map[string]map[string]bool
 	reopened bool
@@ -269,7 +272,9 @@ func (e *Env) runQuery(db *sod.DB, q Query) *sod.Search {
 			s = db.Search(&Doc{}, l.Path, l.Op, v)
 			continue
 		}
-		if l.Conn == "or" {
+		if l.Via != "" {
+			s = s.Operation(l.Via, l.Path, l.Op, v)
+		} else if l.Conn == "or" {
 			s = s.Or(l.Path, l.Op, v)
 		} else {
 			s = s.And(l.Path, l.Op, v)
@@ -772,6 +777,9 @@ func (e *Env) upsert(what string, d *Doc, id string) {
 	e.classifyUpsert(d, id, want, tv)
 	arg := cloneDoc(d)
 	arg.Initialize(id)
+	if e.argOverride != nil {
+		arg = e.argOverride
+	}
 	if e.prepArg != nil {
 		e.prepArg(arg)
 	}
@@ -945,9 +953,47 @@ func (e *Env) Exec(i int, op *Op) bool {
 			d = cloneDoc(op.D)
 		} else {
 			d = cloneDoc(e.m.objs[id])
+			if op.Ref%4 == 1 && !e.opts.NoObs {
+				// read-modify-write the way applications do it: the object handed to
+				// InsertOrUpdate is the very one a read returned, modified in place
+				var src sod.Object
+				if (op.Ref/12)%2 == 0 && !e.holdingSearch {
+					// ... and that read is the first one of a cold handle
+					e.reopen(what+" (restart before the read)", false)
+					e.flag("update-of-an-object-returned-by-the-first-read-of-a-cold-handle")
+				}
+				switch (op.Ref / 4) % 3 {
+				case 0:
+					probe := &Doc{}
+					probe.Initialize(id)
+					src, _ = e.db.Get(probe)
+				case 1:
+					if all, err := e.db.All(&Doc{}); err == nil {
+						for _, o := range all {
+							if o.UUID() == id {
+								src = o
+							}
+						}
+					}
+				default:
+					if objs, err := e.db.Search(&Doc{}, "I64", "=", d.I64).Collect(); err == nil {
+						for _, o := range objs {
+							if o.UUID() == id {
+								src = o
+							}
+						}
+					}
+				}
+				if sd, ok := src.(*Doc); ok && canon(sd) == canon(d) {
+					applySets(sd, op.Sets)
+					e.argOverride = sd
+					e.flag("update-of-an-object-returned-by-a-read")
+				}
+			}
 		}
 		applySets(d, op.Sets)
 		e.upsert(what, d, id)
+		e.argOverride = nil
 	case "resave":
 		id, ok := e.liveRef(op.Ref)
 		if !ok {
@@ -985,7 +1031,17 @@ func (e *Env) Exec(i int, op *Op) bool {
 		d.Initialize(id)
 		e.db.Delete(d) // outcome unspecified; state must not change
 	case "deleteAll":
-		if err := e.db.DeleteAll(&Doc{}); err != nil {
+		if op.Ref%3 == 1 {
+			// the same through the public iterator: Iterator + DeleteObjects
+			it, err := e.db.Iterator(&Doc{})
+			if err != nil {
+				e.failf("%s: Iterator failed: %v", what, err)
+			}
+			if err := e.db.DeleteObjects(it); err != nil {
+				e.failf("%s: DeleteObjects(Iterator) failed: %v", what, err)
+			}
+			e.flag("delete-through-iterator")
+		} else if err := e.db.DeleteAll(&Doc{}); err != nil {
 			e.failf("%s: DeleteAll failed: %v", what, err)
 		}
 		if len(e.m.live) > 0 {
@@ -1010,7 +1066,16 @@ func (e *Env) Exec(i int, op *Op) bool {
 		if s.Err() != nil {
 			e.failf("%s: query %s failed: %v", what, op.Q, s.Err())
 		}
-		if err := s.Delete(); err != nil {
+		if op.Ref%3 == 1 {
+			it, err := s.Iterator()
+			if err != nil {
+				e.failf("%s: Search.Iterator failed: %v", what, err)
+			}
+			if err := e.db.DeleteObjects(it); err != nil {
+				e.failf("%s: DeleteObjects(Search.Iterator) failed: %v", what, err)
+			}
+			e.flag("delete-through-iterator")
+		} else if err := s.Delete(); err != nil {
 			e.failf("%s: Search.Delete failed: %v", what, err)
 		}
 		if len(set) > 0 {
@@ -1397,11 +1462,18 @@ func (e *Env) execBulk(what string, op *Op) {
 		}
 		chunks = append(chunks, chunk{lo, len(args)}) // last (maybe empty) chunk
 	}
-	ch := make(chan sod.Object, len(args))
-	for _, a := range args {
-		ch <- a
+	var ch chan sod.Object
+	if len(args)%2 == 1 {
+		// the library's own slice-to-channel helper (unbuffered, fed by a goroutine)
+		ch = sod.ToObjectChan(args)
+		e.flag("bulk-through-ToObjectChan")
+	} else {
+		ch = make(chan sod.Object, len(args))
+		for _, a := range args {
+			ch <- a
+		}
+		close(ch)
 	}
-	close(ch)
 	n, err := e.db.InsertOrUpdateBulk(ch, csize)
 	e.tracef("%s -> n=%d err=%v", what, n, err != nil)
 	wantN := 0
@@ -1508,6 +1580,62 @@ func (e *Env) execQuery(what string, q *Query) {
 	var objs []sod.Object
 	var err error
 	switch q.Consumer {
+	case "expects", "expectszn":
+		// Expects(n) / ExpectsZeroOrN(n): an unexpected number of results turns the search into an
+		// error that every consumer reports; an expected number leaves it untouched
+		n := len(set) + q.Expect
+		if n < 0 {
+			n = 0
+		}
+		fine := n == len(set)
+		if q.Consumer == "expects" {
+			s = s.Expects(n)
+		} else {
+			s = s.ExpectsZeroOrN(n)
+			fine = fine || len(set) == 0
+		}
+		e.flag("query-consumer-" + q.Consumer)
+		if !fine {
+			if !errors.Is(s.Err(), sod.ErrUnexpectedNumberOfResults) {
+				e.failf("%s: query %s has %d matches; %s(%d) leaves Err()=%v, want ErrUnexpectedNumberOfResults", what, q, len(set), q.Consumer, n, s.Err())
+			}
+			if objs, err := s.Collect(); err == nil || len(objs) > 0 {
+				e.failf("%s: query %s has %d matches; after %s(%d) Collect returned %d objects, err=%v", what, q, len(set), q.Consumer, n, len(objs), err)
+			}
+			if o, err := s.One(); err == nil {
+				e.failf("%s: query %s has %d matches; after %s(%d) One returned %s", what, q, len(set), q.Consumer, n, e.docLine(o))
+			}
+			return
+		}
+		if s.Err() != nil {
+			e.failf("%s: query %s has %d matches; %s(%d) sets Err()=%v", what, q, len(set), q.Consumer, n, s.Err())
+		}
+		objs, err = s.Collect()
+	case "assignunique":
+		var d *Doc
+		var target sod.Object = d
+		err = s.AssignUnique(&target)
+		e.flag("query-consumer-assignunique")
+		switch {
+		case len(set) > 1:
+			if !errors.Is(err, sod.ErrUnexpectedNumberOfResults) {
+				e.failf("%s: AssignUnique on %d matches of %s: err=%v, want ErrUnexpectedNumberOfResults", what, len(set), q, err)
+			}
+			return
+		case len(set) == 0:
+			if !errors.Is(err, sod.ErrNoObjectFound) {
+				e.failf("%s: AssignUnique on an empty result of %s: err=%v, want ErrNoObjectFound", what, q, err)
+			}
+			return
+		}
+		if err != nil {
+			e.failf("%s: AssignUnique on the single match of %s failed: %v", what, q, err)
+		}
+		objs = []sod.Object{target}
+		wantN = 1
+		if q.Limit != nil && *q.Limit == 0 {
+			wantN = 1 // (One ignores a zero limit: pinned semantics)
+		}
 	case "one", "assignone":
 		var o sod.Object
 		if q.Consumer == "one" {
@@ -1655,6 +1783,9 @@ func (e *Env) reopen(what string, abandon bool) {
 		}
 	}
 	e.db = sod.Open(e.root)
+	if e.afterOpen != nil {
+		e.afterOpen()
+	}
 	if e.opts.DiffReopen {
 		// Control only looks at loaded schemas: load first
 		e.db.Count(&Doc{})
@@ -1855,7 +1986,9 @@ func (e *Env) execSnapshot(what string, op *Op) {
 		for id := range e.m.objs {
 			prev[id] = true
 		}
+		e.holdingSearch = true // (no restart while a search value is outstanding)
 		e.Exec(e.step, sub)
+		e.holdingSearch = false
 		for id := range prev {
 			if _, still := e.m.objs[id]; !still {
 				deleted[id] = true
